@@ -499,8 +499,9 @@ read_more:
 		if (ensure_in_buff_size(self, uudecode,
 		    avail_in + uudecode->in_cnt) != ARCHIVE_OK)
 			return (ARCHIVE_FATAL);
-		memcpy(uudecode->in_buff + uudecode->in_cnt,
-		    d, avail_in);
+		if (avail_in > 0)
+			memcpy(uudecode->in_buff + uudecode->in_cnt,
+			    d, avail_in);
 		d = uudecode->in_buff;
 		avail_in += uudecode->in_cnt;
 		uudecode->in_cnt = 0;
